@@ -103,16 +103,33 @@ def r11_1(prog: Program, rep: Report):
         rep.check(ok, "R11.1", q, f.loc, f"after peeling {k} the loop is re-entered (chains peel to a fixpoint)", f"after peeling {k} unwrap returns at once: a chain such as NewType of NewType / Final[alias] is only peeled one level", detail=f"{k}-fixpoint")
     rep.check(not string_exits_bad, "R11.1", q, f.loc, "a string-valued alias always unwraps to the forward reference in the alias's module", f"a string-valued alias can unwrap to {string_exits_bad[:1]} instead of the forward reference naming its value: the context key under which the graph registered it is no longer the one a lookup asks for", detail="alias-string-exit")
     rep.check(exits_ok, "R11.1", q, f.loc, "the non-peeling exit returns the current annotation", "an exit returns something other than the current annotation", detail="exit")
-    # _UNWRAPPABLE and should_unwrap
-    uw = P.module_term(prog, prog.module(C.INSP), "_UNWRAPPABLE")
-    names = {T.refname(x) for x in uw[1]} if uw[0] in ("tuple", "list", "set") else set()
-    need = {f"{C.INSP}.isclassvartype", f"{C.INSP}.isfinal"}
-    rep.check(need <= names, "R11.1", f"{C.INSP}._UNWRAPPABLE", prog.module(C.INSP).relpath, "qualifier predicates cover ClassVar and Final", f"_UNWRAPPABLE lacks {sorted(n.rsplit('.', 1)[-1] for n in need - names)}: that qualifier is never peeled", detail="qualifiers")
+    # should_unwrap consults every qualifier predicate — through a table (`any(x(obj) for x in TABLE)`) or spelled out
     su = prog.function(f"{C.INSP}.should_unwrap")
-    ok = False
+    obj = ("param", su.params[0])
+    names: set[str] = set()
+
+    def positive_calls(tm, pos=True):
+        if tm[0] == "not":
+            positive_calls(tm[1], not pos)
+        elif tm[0] == "boolop":
+            for x in tm[2]:
+                positive_calls(x, pos)
+        elif tm[0] == "call":
+            rn = T.refname(tm[1])
+            if pos and rn and rn.startswith(C.INSP + ".") and tm[2] == (obj,):
+                names.add(rn)
+            if pos and rn == "builtins.any" and tm[2] and tm[2][0][0] == "comp":
+                c = tm[2][0]
+                items = P.flatten_display(prog, c[3][0][0])
+                if items is not None and c[2] == ("call", ("elem", c[3][0][0]), (obj,), ()):
+                    names.update(T.refname(x) for x in items if T.refname(x))
+
     for _, r in P.returns(P.paths_of(prog, su)):
-        ok = T.contains(r, lambda s: T.is_call_to(s, "builtins.any") and T.contains(s, lambda y: y == ("ref", f"{C.INSP}._UNWRAPPABLE")))
-    rep.check(ok, "R11.1", su.qualname, su.loc, "should_unwrap is any(qualifier predicate) over _UNWRAPPABLE", "should_unwrap does not consult every qualifier predicate of _UNWRAPPABLE", detail="should_unwrap")
+        positive_calls(r)
+    need = {f"{C.INSP}.isclassvartype", f"{C.INSP}.isfinal"}
+    rep.check(need <= names, "R11.1", su.qualname, su.loc, "should_unwrap consults the ClassVar and the Final predicate", f"should_unwrap does not consult {sorted(n.rsplit('.', 1)[-1] for n in need - names)}: that qualifier is never peeled", detail="qualifiers")
+    lit_excluded = all(any(T.is_call_to(g, f"{C.INSP}.isliteral") and not pol for g, pol in pth.guards()) or T.contains(r, lambda x: x[0] == "not" and T.is_call_to(x[1], f"{C.INSP}.isliteral")) or r == ("const", False) for pth, r in P.returns(P.paths_of(prog, su)))
+    rep.check(lit_excluded, "R11.1", su.qualname, su.loc, "Literal forms are never unwrapped (their arguments are values)", "should_unwrap can be true for a Literal: its first value would be taken for an annotation", detail="should_unwrap")
     # the predicates themselves
     for nm, target in (("isfinal", "typing.Final"), ("isclassvartype", "typing.ClassVar")):
         g = prog.function(f"{C.INSP}.{nm}")
